@@ -214,3 +214,47 @@ Definition piter (v : pv) : res (list pv) :=
   | PNone => Err TypeError
   | _ => Err TypeError
   end.
+
+(* ---- bytes.find(sub, start, end): lowest index in [start, end) slice, -1 *)
+Fixpoint is_prefix (p l : list Z) : bool :=
+  match p, l with
+  | [], _ => true
+  | x :: p', y :: l' => (x =? y) && is_prefix p' l'
+  | _ :: _, [] => false
+  end.
+Fixpoint find_from (sub l : list Z) (i : Z) : Z :=
+  match l with
+  | [] => match sub with [] => i | _ => -1 end
+  | _ :: l' => if is_prefix sub l then i else find_from sub l' (i + 1)
+  end.
+Definition pfind (s sub lo hi : pv) : res pv :=
+  match s, sub with
+  | PBytes b, PBytes p =>
+      let n := Z.of_nat (List.length b) in
+      match (match lo with PNone => Some 0 | _ => as_int lo end),
+            (match hi with PNone => Some n | _ => as_int hi end) with
+      | Some a, Some c =>
+          let a' := norm_idx a n in
+          let c' := norm_idx c n in
+          let window := firstn (Z.to_nat (c' - a')) (skipn (Z.to_nat a') b) in
+          let r := find_from p window 0 in
+          Ok (PInt (if r <? 0 then -1 else r + a'))
+      | _, _ => Err TypeError
+      end
+  | _, _ => Err TypeError
+  end.
+
+(* ---- an input stream object: (remaining data, short-read bounds);
+   file.read(k) for k >= 0 hands out min(k, next bound, available) bytes *)
+Definition stream_read (f k : pv) : res (pv * pv) :=
+  match f, as_int k with
+  | PTuple [PBytes data; PList shorts], Some n =>
+      let m := match shorts with
+               | PInt b :: _ => Z.min n b
+               | _ => n
+               end in
+      let rest := match shorts with _ :: r => r | [] => [] end in
+      Ok (PBytes (firstn (Z.to_nat m) data),
+          PTuple [PBytes (skipn (Z.to_nat m) data); PList rest])
+  | _, _ => Err TypeError
+  end.
